@@ -1345,6 +1345,18 @@ class Engine:
             # [x for x in L]: a new list holding the SAME objects in the same order (no allocation of elements)
             yield ("val", SList(lst.n, lst.el, lst.mk), st)
             return
+        if isinstance(g.target, ast.Name) and isinstance(elt, (ast.Compare, ast.BoolOp, ast.UnaryOp)):
+            # (c(x) for x in L) with c a test without control flow of its own: the list of the truth values, pointwise (read by any / all)
+            kv = fresh("kx", I)
+            stb = st.bind(g.target.id, lst.mk(lst.el[kv]))
+            o = list(self.expr(elt, stb))
+            if len(o) == 1 and o[0][0] == "val" and len(o[0][2].pc) == len(stb.pc):
+                t = self.truth(o[0][1])
+                t = z3.BoolVal(t) if isinstance(t, bool) else t
+                x = z3.Int("x!map")
+                yield ("val", SList(lst.n, z3.Lambda([x], z3.substitute(t, (kv, x))), lambda b: b), st)
+                return
+            raise Unsupported("comprehension over a symbolic list: test with control flow")
         if not (isinstance(elt, ast.Call) and isinstance(g.target, ast.Name)):
             raise Unsupported("comprehension over a symbolic list: only constructor maps are supported")
         outs = list(self.expr(elt.func, st))
